@@ -14,6 +14,7 @@ import Mathlib.Data.Real.Basic
 import Mathlib.Analysis.SpecialFunctions.Pow.Real
 import DPL.Proofs.RealCarrier
 import DPL.Proofs.AccountantFp
+import DPL.Proofs.AccountantIR
 
 namespace DPL.C04
 open DPL
@@ -415,5 +416,151 @@ theorem fp_slack_9000 (n : ℕ) (hn : n ≤ 9000) :
 on ℝ that is exact on `0 + x` and follows the standard model -/
 example : FpCarrier (α := ℝ) id 1 :=
   ⟨le_refl _, rfl, fun x => zero_add x, fun a b _ _ => by simp, fun _ _ h => h, fun _ _ h => not_lt.mp h⟩
+
+/-! ### the methods as coded: static control-flow tie (`DPL/Model/AccountantIR.lean`)
+
+The bodies of `check`, `spend` and the `slack` setter, written as terms of a small IR and interpreted statement by
+statement (validation call, guards, `total(…)` bindings, raises, append, assignment, returns), ARE the model's `Acc.step`
+— the machine `run_fits`, `spend_iff_check`, `step_refused_noop` … are about.  `DPL/Generated/C04Methods.lean` proves the
+same for the bodies re-read from /repo's current AST on every run (same proof scripts). -/
+section methods
+open AccIR
+variable {α : Type} [OfNat α 0] [OfNat α 1] [OfNat α 2] [Add α] [Sub α] [Mul α] [Div α] [Neg α]
+  [LT α] [LE α] [DecidableLT α] [DecidableLE α] [NatCast α] [Transc α] [HasInf α]
+
+/-- for ANY carrier: final state (also of a refused call) and outcome of the interpreted bodies = the model's step -/
+theorem accountant_methods_as_coded (a : Acc α) (e d s : α) :
+    execCheck handCheck a e d = a.step (.check e d) ∧
+    execSpend handCheck handSpend a e d = a.step (.spend e d) ∧
+    execSetSlack handSetSlack a s = a.step (.setSlack s) :=
+  ⟨handCheck_ok a e d, handSpend_ok a e d, handSetSlack_ok a s⟩
+
+/-- … as equalities of functions of state and arguments with the model's `check` / `spend` / `setSlack` -/
+theorem accountant_methods_as_coded_fun :
+    (fun (a : Acc α) e d => execCheck handCheck a e d) = (fun a e d => (a, Res.ofExcept (a.check e d))) ∧
+    (fun (a : Acc α) e d => execSpend handCheck handSpend a e d) =
+      (fun a e d => match a.spend e d with | .ok a' => (a', .ok) | .error x => (a, .err x)) ∧
+    (fun (a : Acc α) s => execSetSlack handSetSlack a s) =
+      (fun a s => match a.setSlack s with | .ok a' => (a', .ok) | .error x => (a, .err x)) :=
+  ⟨funext fun a => funext fun e => funext fun d => handCheck_ok a e d,
+   funext fun a => funext fun e => funext fun d => handSpend_ok a e d,
+   funext fun a => funext fun s => handSetSlack_ok a s⟩
+
+/-- the operation machine with the three methods run from their bodies -/
+def stepCoded (a : Acc α) : AOp α → Acc α × Res
+  | .spend e d => execSpend handCheck handSpend a e d
+  | .check e d => execCheck handCheck a e d
+  | .setSlack s => execSetSlack handSetSlack a s
+  | .query => (a, .ok)
+
+theorem stepCoded_eq (a : Acc α) (op : AOp α) : stepCoded a op = a.step op := by
+  cases op
+  · exact handSpend_ok a _ _
+  · exact handCheck_ok a _ _
+  · exact handSetSlack_ok a _
+  · rfl
+
+/-- the invariant of C04 for the machine run from the bodies -/
+theorem run_coded_fits (ops : List (AOp α)) (a : Acc α) (h : Fits a) :
+    Fits (ops.foldl (fun a op => (stepCoded a op).1) a) := by
+  have : (fun (a : Acc α) op => (stepCoded a op).1) = fun a op => (a.step op).1 := by
+    funext a op; rw [stepCoded_eq]
+  rw [this]; exact run_fits ops a h
+
+end methods
+
+section methods_cex
+open AccIR
+
+/-- `check` comparing the new total ε with `<` instead of `<=` -/
+def badCheckLt : Prog :=
+  [ .validate .eps .delta false,
+    .retIf (.and (.isInf .ceilEps) (.eq .ceilDelta .one)),
+    .raiseIf .valueError (.and (.lt .zero .eps) (.lt .eps .minEps)),
+    .letTotal (.ownPlus .eps .delta) .own,
+    .retIf (.and (.lt .totEps .ceilEps) (.le .totDelta .ceilDelta)),
+    .raise .budgetError ]
+
+/-- `check` that forgets the δ comparison -/
+def badCheckNoDelta : Prog :=
+  [ .validate .eps .delta false,
+    .retIf (.and (.isInf .ceilEps) (.eq .ceilDelta .one)),
+    .raiseIf .valueError (.and (.lt .zero .eps) (.lt .eps .minEps)),
+    .letTotal (.ownPlus .eps .delta) .own,
+    .retIf (.le .totEps .ceilEps),
+    .raise .budgetError ]
+
+/-- `spend` that appends before it calls `check` -/
+def badSpendAppendFirst : Prog :=
+  [ .append .eps .delta, .callCheck .eps .delta, .ret ]
+
+/-- the accountant `BudgetAccountant(1, 0)` over ℝ -/
+def acc10 : Acc ℝ := ⟨1, 0, 0, 0, []⟩
+
+/-- the tie discriminates `<` from `<=`: spending exactly the ceiling is accepted by the model (and the code), refused by
+the `<` variant -/
+theorem check_lt_cex :
+    execCheck badCheckLt acc10 1 0 = (acc10, .err .budgetError) ∧ acc10.step (.check 1 0) = (acc10, .ok) ∧
+    ¬ CheckOk badCheckLt := by
+  have h1 : execCheck badCheckLt acc10 1 0 = (acc10, .err .budgetError) := by
+    norm_num [execCheck, badCheckLt, exec, evalC, evalA, evalSpent, evalSlack, totalOf, acc10, checkEpsDelta, feq,
+      totalCore, epsSums, totalDeltaSafe, sortAsc, insertSorted, mkBudget, HasInf.isPosInf, List.forM, List.foldl,
+      bind, Except.bind, pure, Except.pure, throw, throwThe, MonadExceptOf.throw]
+  have h2 : acc10.step (.check 1 0) = (acc10, .ok) := by
+    norm_num [Acc.step, Acc.check, Res.ofExcept, acc10, checkEpsDelta, feq, Acc.unlimited, totalCore, epsSums,
+      totalDeltaSafe, sortAsc, insertSorted, mkBudget, HasInf.isPosInf, List.forM, List.foldl,
+      bind, Except.bind, pure, Except.pure, throw, throwThe, MonadExceptOf.throw]
+  refine ⟨h1, h2, fun h => ?_⟩
+  have := h acc10 1 0
+  rw [h1, h2] at this
+  cases this
+
+/-- the tie sees a dropped δ comparison: `(0, 1/2)` against a δ-ceiling of 0 -/
+theorem check_no_delta_cex :
+    execCheck badCheckNoDelta acc10 0 (1/2) = (acc10, .ok) ∧
+    acc10.step (.check 0 (1/2)) = (acc10, .err .budgetError) ∧ ¬ CheckOk badCheckNoDelta := by
+  have h1 : execCheck badCheckNoDelta acc10 0 (1/2) = (acc10, .ok) := by
+    norm_num [execCheck, badCheckNoDelta, exec, evalC, evalA, evalSpent, evalSlack, totalOf, acc10, checkEpsDelta, feq,
+      totalCore, epsSums, totalDeltaSafe, sortAsc, insertSorted, mkBudget, HasInf.isPosInf, List.forM, List.foldl,
+      bind, Except.bind, pure, Except.pure, throw, throwThe, MonadExceptOf.throw]
+  have h2 : acc10.step (.check 0 (1/2)) = (acc10, .err .budgetError) := by
+    norm_num [Acc.step, Acc.check, Res.ofExcept, acc10, checkEpsDelta, feq, Acc.unlimited, totalCore, epsSums,
+      totalDeltaSafe, sortAsc, insertSorted, mkBudget, HasInf.isPosInf, List.forM, List.foldl,
+      bind, Except.bind, pure, Except.pure, throw, throwThe, MonadExceptOf.throw]
+  refine ⟨h1, h2, fun h => ?_⟩
+  have := h acc10 0 (1/2)
+  rw [h1, h2] at this
+  cases this
+
+/-- the tie sees the ORDER of `check` and `append` in `spend`: appending first refuses a spend of exactly the ceiling
+(the total then counts it twice) and leaves it recorded although the call raised — the model (and the code) accept it -/
+theorem spend_append_first_cex :
+    execSpend handCheck badSpendAppendFirst acc10 1 0 = ({ acc10 with spent := [⟨1, 0⟩] }, .err .budgetError) ∧
+    acc10.step (.spend 1 0) = ({ acc10 with spent := [⟨1, 0⟩] }, .ok) ∧
+    ¬ SpendOk handCheck badSpendAppendFirst := by
+  have h1 : execSpend handCheck badSpendAppendFirst acc10 1 0 =
+      ({ acc10 with spent := [⟨1, 0⟩] }, .err .budgetError) := by
+    norm_num [execSpend, execCheck, handCheck, badSpendAppendFirst, exec, evalC, evalA, evalSpent, evalSlack, totalOf,
+      acc10, checkEpsDelta, feq, totalCore, epsSums, totalDeltaSafe, sortAsc, insertSorted, mkBudget, HasInf.isPosInf,
+      List.forM, List.foldl, bind, Except.bind, pure, Except.pure, throw, throwThe, MonadExceptOf.throw]
+  have h2 : acc10.step (.spend 1 0) = ({ acc10 with spent := [⟨1, 0⟩] }, .ok) := by
+    norm_num [Acc.step, Acc.spend, Acc.check, acc10, checkEpsDelta, feq, Acc.unlimited, totalCore, epsSums,
+      totalDeltaSafe, sortAsc, insertSorted, mkBudget, HasInf.isPosInf, List.forM, List.foldl,
+      bind, Except.bind, pure, Except.pure, throw, throwThe, MonadExceptOf.throw]
+  refine ⟨h1, h2, fun h => ?_⟩
+  have := h acc10 1 0
+  rw [h1, h2] at this
+  cases this
+
+/-- non-vacuity: the hand bodies do satisfy the contracts the bad ones fail, and on the very inputs of the
+counter-examples the interpreted hand bodies give the model's answers -/
+example : CheckOk handCheck ∧ SpendOk handCheck handSpend ∧ SetSlackOk handSetSlack :=
+  ⟨handCheck_ok, handSpend_ok, handSetSlack_ok⟩
+example : execCheck handCheck acc10 1 0 = (acc10, .ok) := by
+  rw [handCheck_ok]; exact check_lt_cex.2.1
+example : execSpend handCheck handSpend acc10 1 0 = ({ acc10 with spent := [⟨1, 0⟩] }, .ok) := by
+  rw [handSpend_ok]; exact spend_append_first_cex.2.1
+
+end methods_cex
 
 end DPL.C04
